@@ -105,7 +105,7 @@ pub fn run_parallel_multi<J: Send + Sync + 'static>(
                         Ok(x) => x,
                         Err(_) => {
                             let loc = scen_adv::PANIC_LOCS.with(|l| l.borrow().last().map(|x| x.0.clone())).unwrap_or_default();
-                            if !loc.starts_with("/repo/") {
+                            if !scen_adv::in_crate(&loc) {
                                 eprintln!("HARNESS PANIC in scenario {k} at {loc}");
                                 std::process::exit(3);
                             }
